@@ -236,6 +236,17 @@ Example c03_stale_move_refuted :
   spec_b (uidstore1_sched_stale s 1 SAdd [JUNK] 1 [] c034_env) = false.
 Proof. exact stale_move_refuted. Qed.
 
+(** regression (seeded change C08-5): RENAME INBOX x reading INBOX's uid_next up
+    front and writing it into the target later is refuted by ONE delivery to INBOX
+    between the creation of the target row and the transaction; the tree's order
+    (counter copied by a sub-select inside the moving transaction) passes it *)
+Example c03_stale_rename_inbox_refuted :
+  let s := run sched2_prep (init 100) in
+  clean s c085_env = true /\
+  spec_b (fst (rename_inbox_sched s (S_ "R1") 200 c085_env)) = true /\
+  spec_b (fst (rename_inbox_sched_stale s (S_ "R1") 200 c085_env)) = false.
+Proof. exact stale_rename_inbox_refuted. Qed.
+
 (** non-vacuity: a clean history that uses every kind of operation (UID COPY,
     COPY, a Junk move, RENAME INBOX with a message in it, DELETE + CREATE of the
     same name in different seconds), and the spec evaluated on it *)
